@@ -317,7 +317,14 @@ def model_graph(alpha, state_cap=None):
     views = [X.view_of_desc(d) for d in alpha]
     m0 = CM.Mirror()
     seen = {m0.canon(): 0}
-    order = [(m0.canon(), ())]
+
+    class Order(list):
+        """(canon, BFS-tree path) per state; .alt[i] = ANOTHER history that reaches state i (the last non-tree edge
+        found, i.e. a long one - typically through deletions and redefinitions): an implementation whose state is more
+        than the model state (parked objects, caches) shows when the same state is entered that way"""
+
+    order = Order([(m0.canon(), ())])
+    order.alt = {}
     models = {0: m0}
     fr = deque([0])
     while fr:
@@ -335,4 +342,6 @@ def model_graph(alpha, state_cap=None):
                 order.append((c, path + (ai,)))
                 models[seen[c]] = mm
                 fr.append(seen[c])
+            elif path + (ai,) != order[seen[c]][1] and len(path) + 1 > len(order[seen[c]][1]):
+                order.alt[seen[c]] = path + (ai,)
     return order
